@@ -131,4 +131,26 @@ PROPS = {
             'C10_scope_eq is about the two scope functions as regenerated from calibrator.py and params_generator.py; the regex engine is a parameter',
             'the no-missing-statistics clause is executed (quantize(calibrate()) on every case), not yet a theorem'],
     },
+    'C17': {
+        'steps': [{'script': 'corr_arith.py', 'timeout': 1500, 'timeout_thorough': 6000}],
+        'required_theorems': ['C17_scale_positive', 'C17_zero_point_in_range',
+                              'C17_zero_exactly_representable', 'C17_range_covered',
+                              'C17_quantize_monotone', 'C17_dequantize_quantize_half_step',
+                              'C17_quantize_dequantize_identity',
+                              'C17_f32_roundtrip_all_codes_on_grid', 'C17_f32_scale_finite_refuted',
+                              'C17_model_pins'],
+        'rule': ('33x2 directed (min,max,bits,symmetry) cases (degenerate, one-sided, tiny, huge, wider than '
+                 'FLT_MAX) + random float32 ranges over 80 orders of magnitude x bits 4/8/16 x both symmetries; '
+                 'per range: zp/scale, 4 quantized points, all codes (thorough) or 12 codes (quick) dequantized, '
+                 'float64 path, bias, moving average, float16, fixed ranges, int4 packing; every row compared as '
+                 'IEEE bit patterns with the Flocq model. non-trivial = finite positive scale; distinct = distinct '
+                 '(bits, symmetry, min, max)'),
+        'trusted_base': COMMON_TB + [
+            'Flocq 4.1 (IEEE-754 formalisation) and the Coq Reals: axioms sig_forall_dec, sig_not_dec, functional_extensionality_dep, classic as reported',
+            'numpy dtype promotion rules are written into Model/ArithF32.v by hand and validated bit-for-bit by correspondence A',
+            'C cast of an out-of-range float to an integer type (undefined behaviour) is not modelled'],
+        'assumptions': [
+            'Part 1 theorems are about the ideal real arithmetic; the float32-vs-real rounding envelope is not proved (stated)',
+            'Part 2 sweeps are finite computations over the grid stated in the theorem'],
+    },
 }
